@@ -291,6 +291,25 @@ def query_path(I, res, prop, shape):
         cx.obligation(exp == n, "query:page-window", "returned %d rows for offset=%d limit=%d" % (n, offset, lim))
         for rid in got_ids:
             cx.obligation(sats[rid], "query:filter:%s:spurious-row" % shape_tag, "row %s returned but does not satisfy the filter" % rid)
+        if with_order:
+            # the page is the window [offset, offset+limit) of the ORDERED matching rows: the j-th returned row has at most offset+j matching
+            # rows strictly before it and at least offset+j+1 matching rows not after it (ties may fall either way)
+            def lt(ra, rb):
+                f = z3.BoolVal(False)
+                for ok_, rv in reversed(orders):
+                    a, b = ra.f[fidx[ok_]], rb.f[fidx[ok_]]
+                    f = z3.Or((a > b) if rv else (a < b), z3.And(a == b, f))
+                return f
+
+            def eqk(ra, rb):
+                return z3.And(*[ra.f[fidx[ok_]] == rb.f[fidx[ok_]] for ok_, rv in orders])
+
+            for j, gid in enumerate(got_ids):
+                g = recs[gid]
+                n_lt = z3.Sum([z3.If(z3.And(sats[rid], lt(rec, g)), 1, 0) for rid, rec in rows if rid != gid] + [z3.IntVal(0)])
+                n_le = z3.Sum([z3.If(z3.And(sats[rid], z3.Or(lt(rec, g), eqk(rec, g))), 1, 0) for rid, rec in rows])
+                cx.obligation(z3.And(n_lt <= offset + j, n_le >= offset + j + 1), "query:page-window-of-ordered-rows",
+                              "row %s is returned at position %d of the page (offset %d) but that is not its place among the ordered matching rows" % (gid, j, offset))
     if len(res.samples) < 2:
         res.samples.append(dict(check="query", shape=shape, result=got_ids, decisions=list(I.path.taken)))
 
@@ -392,6 +411,14 @@ def confirm(v):
                 roles.add("query:page-window")
             if any(i not in match for i in r["ids"]):
                 roles.add("query:filter:%s:spurious-row" % shape_tag)
+            if q["order"]:
+                def keyf2(i):
+                    return tuple((-by_id[i][o[0]]) if o[1] else by_id[i][o[0]] for o in q["order"])
+                for j, gid in enumerate(r["ids"]):
+                    n_lt = len([i for i in match if i != gid and keyf2(i) < keyf2(gid)])
+                    n_le = len([i for i in match if keyf2(i) <= keyf2(gid)])
+                    if not (n_lt <= off + j and n_le >= off + j + 1):
+                        roles.add("query:page-window-of-ordered-rows")
         return (v.role in roles), dict(real=r, roles=sorted(roles), scenario=sc["steps"][0])
     if rc["kind"] == "roundtrip":
         rec = _concrete(rc["record"], m)
